@@ -54,6 +54,30 @@ def gen_system(rng, limited_stratum=False):
     return pl
 
 
+def gen_gravity(rng):
+    """a line without pumps that runs downhill (tailings / gravity line): pump head is 0, the system head is negative at low flow and crosses 0"""
+    from DHLLDV.PipeObj import Pipe, Pipeline
+    p = E.slurry_params(rng)
+    p['Cv'] = rng.uniform(0.08, 0.3)
+    p['D50'] = E.loguniform(rng, 2e-4, 1.5e-3)
+    p['r85'] = min(p['r85'], 4.0)
+    for _ in range(20):
+        dia = rng.choice([0.4, 0.5, 0.6, 0.7])
+        p['Dp'] = dia
+        nu, rhol = E.fluids()[p['fluid']]
+        if p['D50'] <= E.dlim(dia, nu, rhol, p['rhos']) * 1.01:
+            continue
+        s = E.make_slurry(p)
+        s._params = dict(p)
+        L = rng.uniform(800.0, 3000.0)
+        # fall chosen so that the line runs at 2 .. 7 m/s: fall * rhom ~ friction at that speed
+        v_eq = rng.uniform(2.0, 7.0)
+        fall = (s.im(v_eq) * L + 2.0 * v_eq ** 2 / 19.6 * s.rhom) / s.rhom
+        secs = [Pipe('intake', dia, 0.0, 0.5, -2.0), Pipe('downhill', dia, L * 0.6, 0.5, -fall * 0.6), Pipe('downhill 2', dia, L * 0.4, 0.5, -fall * 0.4)]
+        return Pipeline(name='gravity line', pipe_list=secs, slurry=s)
+    return None
+
+
 def tune_marginal(rng, pl, flow_list):
     """stretch the last pipe so that the pump is -2 .. +2 % off the system head at the minimum-friction flow"""
     from DHLLDV.PipeObj import Pipe
@@ -274,8 +298,14 @@ def monitor(ctx, extended=False):
         ctx.count('corpus_systems')
         check_system(ctx, pl, flow_list_of(pl), 'corpus', classes)
     n = ctx.n(120, 6000) * (2 if extended else 1)
-    for _ in range(n):
+    for it in range(n):
         r = ctx.rng.random()
+        if it % 12 == 5:
+            pl = gen_gravity(ctx.rng)
+            if pl is None:
+                continue
+            check_system(ctx, pl, flow_list_of(pl), 'gravity-line', classes)
+            continue
         pl = gen_system(ctx.rng, limited_stratum=(0.3 <= r < 0.65))
         if pl is None:
             continue
